@@ -118,6 +118,13 @@ def build() -> Check:
                     and not any("isinstance" in str(k) and v is False for k, v in t.pc) and not any("tzinfo is not None" in str(k) and v is False for k, v in t.pc):
                 # (looking at the recorded end and then parking for the full duration all the same is no better than not looking)
                 badw.append((f"a wait found {st} whose record carries its end time parks until {ts_.key()} - its full duration counted from now", t))
+            elif recorded and ts_ is not None and "scheduled_end_timestamp" not in ts_.key() and not any(
+                    "scheduled_end_timestamp" in str(k) and (str(k).endswith("<= datetime.now()") or str(k).endswith("< datetime.now()")) and v is True for k, v in t.pc) \
+                    and not any(str(k).endswith("scheduled_end_timestamp is None") and v is True for k, v in t.pc) \
+                    and not any("isinstance" in str(k) and v is False for k, v in t.pc) and not any("tzinfo is not None" in str(k) and v is False for k, v in t.pc):
+                # "look again in a moment" is for a recorded end that HAS passed; before that the branch parks until the recorded end itself - a branch that
+                # re-looks every second while its wait runs never looks parked for longer than that to its siblings (mutscan: `resume_at <= now` negated)
+                badw.append((f"a wait found {st} whose recorded end has not passed parks until {ts_.key()} instead of that end", t))
             elif recorded and not from_record and not any(str(k).endswith("scheduled_end_timestamp is None") and v is True for k, v in t.pc) \
                     and not any("isinstance" in str(k) and v is False for k, v in t.pc) and not any("tzinfo is not None" in str(k) and v is False for k, v in t.pc):
                 badw.append((f"a wait found {st} whose record carries its end time parks until {ts_.key() if ts_ is not None else '?'}", t))
